@@ -298,7 +298,7 @@ def gen_config(rng, name, quick=True):
 
 
 def config_to_json(cfg):
-    j = {k: cfg[k] for k in ("name", "alphabet", "delims", "completion", "strict", "algebra")}
+    j = {k: cfg.get(k) for k in ("name", "alphabet", "delims", "completion", "strict", "algebra")}
     j["case"] = C06.case_to_json(cfg["case"])
     return j
 
@@ -460,8 +460,11 @@ def monitor_table(cfg, rows, sid, inp, by_weight):
             elif by_weight:
                 w = max(exact[t])
                 if lastw is not None and w > lastw:
-                    bad.append(("exact-order", "exact entries not in weight order: %s (weight %r) after weight %r" %
-                                (bytes.fromhex(t).decode("utf-8", "replace"), w, lastw)))
+                    shown = ["%s(%s)" % (bytes.fromhex(x[3]).decode("utf-8", "replace"),
+                                         "/".join(sorted({ws.decode("latin-1") for tt, cc, ws in cfg.get("_raw_rows", []) if tt.hex() == x[3] and len(cc) == 1})))
+                             for x in inp["c"] if x[0] == "table"]
+                    bad.append(("exact-order", "entries whose code equals the input are not in weight order: %s comes after a lighter "
+                                "entry; list with source weights: %s" % (bytes.fromhex(t).decode("utf-8", "replace"), " ".join(shown[:8]))))
                 lastw = w
         elif ty == "completion":
             phase = "completion"
@@ -520,6 +523,7 @@ class Runner:
 
 def ref_of(cfg):
     syl, rows, need, nent = C06.ref_rows(cfg["case"])
+    cfg["_raw_rows"] = rows
     sid = {s: i for i, s in enumerate(syl)}
     wrows = [(t, cd, C06.okey(C06.stored_bits(C06.eff_weight(w)))) for t, cd, w in rows]
     return syl, sid, wrows
